@@ -99,6 +99,9 @@ Outcomes(e, v) ==
 (* the four built-ins that evaluate an expression reference once per element, with that element
    as the current node; keys of the _by family must be all numbers or all strings (every element,
    a sole one included) *)
+(* keys that are opaque text (to_string of a non-string) are strings whose order is not specified *)
+KeysOpaque(ks) == \E i \in 1..Len(ks) : ks[i][1] = "jsontext"
+KeysStrLike(ks) == \A i \in 1..Len(ks) : IsStrLike(ks[i])
 CallFn(name, args) ==
   IF name \notin ByExpr THEN PureCall(name, args)
   ELSE IF ~ArgsOK(name, args) THEN ErrS
@@ -106,12 +109,14 @@ CallFn(name, args) ==
          [] name = "sort_by" ->
               IF "SkipKeyCheckSingleton" \in Dev /\ Len(args[1][2]) <= 1 THEN OkS(args[1])
               ELSE Bind(MapOut(args[2][2], args[1][2]), LAMBDA ks :
-                 IF ~KeysUniform(ks) THEN ErrS
+                 IF KeysOpaque(ks) THEN (IF KeysStrLike(ks) THEN {UNSPEC} ELSE ErrS)
+                 ELSE IF ~KeysUniform(ks) THEN ErrS
                  ELSE OkS(Arr(LET o == StableOrder(ks, 1..Len(ks)) IN [i \in 1..Len(o) |-> args[1][2][o[i]]])))
          [] name \in {"max_by", "min_by"} ->
               IF "SkipKeyCheckSingleton" \in Dev /\ Len(args[1][2]) = 1 THEN OkS(args[1][2][1])
               ELSE Bind(MapOut(args[2][2], args[1][2]), LAMBDA ks :
-                 IF ~KeysUniform(ks) THEN ErrS
+                 IF KeysOpaque(ks) THEN (IF KeysStrLike(ks) THEN {UNSPEC} ELSE ErrS)
+                 ELSE IF ~KeysUniform(ks) THEN ErrS
                  ELSE IF ks = <<>> THEN OkS(Null)
                  ELSE OkS(args[1][2][ArgBest(ks, LAMBDA x, y : IF name = "max_by" THEN KeyLess(y, x) ELSE KeyLess(x, y))]))
 
